@@ -8203,6 +8203,13 @@ record_object(TypeIndex type_index) {
     MakeSeqIndex make_seq_index = itype.get_make_seq(msi);
     const InterrogateMakeSeq &imake_seq = idb->get_make_seq(make_seq_index);
 
+    if (imake_seq.get_length_getter() == 0 ||
+        imake_seq.get_element_getter() == 0) {
+      // The getters are not exported (e.g. they are not published), so there
+      // is nothing to build the sequence from.
+      continue;
+    }
+
     string class_name = itype.get_scoped_name();
     string clean_name = InterrogateBuilder::clean_identifier(class_name);
     string wrapper_name = "MakeSeq_" + clean_name + "_" + imake_seq.get_name();
